@@ -332,6 +332,9 @@ func fieldKey(structType types.Type, idx int) (string, types.Type) {
 	name := "?"
 	if n, ok := t.(*types.Named); ok {
 		name = n.Obj().Name()
+		if n.Obj().Pkg() != nil {
+			name = n.Obj().Pkg().Name() + "." + name
+		}
 	}
 	s, ok := t.Underlying().(*types.Struct)
 	if !ok {
@@ -342,12 +345,7 @@ func fieldKey(structType types.Type, idx int) (string, types.Type) {
 }
 
 // FieldName strips the type qualifier of a faddr/fld Aux.
-func FieldName(aux string) string {
-	if i := strings.LastIndex(aux, "."); i >= 0 {
-		return aux[i+1:]
-	}
-	return aux
-}
+func FieldName(aux string) string { return canonicalField(aux) }
 
 func (ev *Evaluator) faddr(base *T, structType types.Type, idx int) *T {
 	k, ft := fieldKey(structType, idx)
@@ -489,8 +487,14 @@ func (ev *Evaluator) LoadField(st *State, ptr *T, fields ...string) *T {
 		idx := -1
 		if stt != nil {
 			if s, ok := stt.Underlying().(*types.Struct); ok {
+				want := f
+				if n, isN := stt.(*types.Named); isN && n.Obj().Pkg() != nil {
+					if a, okA := toActual[n.Obj().Pkg().Name()+"."+n.Obj().Name()+"."+f]; okA {
+						want = a
+					}
+				}
 				for j := 0; j < s.NumFields(); j++ {
-					if s.Field(j).Name() == f {
+					if s.Field(j).Name() == want {
 						idx = j
 					}
 				}
